@@ -10,10 +10,11 @@ import NrfModel.Drv.Mesh
 import NrfModel.Drv.Ble
 import NrfModel.Drv.Structs
 import NrfModel.Drv.Spec0809
+import NrfModel.Drv.Cfg
 
 open Nrf.Drv
 
-def allHandlers : List (String × Handler) := netHandlers ++ rfHandlers ++ netSHandlers ++ meshHandlers ++ bleHandlers ++ structsHandlers ++ spec0809Handlers
+def allHandlers : List (String × Handler) := netHandlers ++ rfHandlers ++ netSHandlers ++ meshHandlers ++ bleHandlers ++ structsHandlers ++ spec0809Handlers ++ cfgHandlers
 
 def dispatch (line : String) : String :=
   match (line.splitOn " ").filter (· ≠ "") with
